@@ -189,7 +189,16 @@ def call(rec, chart, text, inst, diff, args, label, derived=None):
 
 
 def drive(rec, rng, case):
-    out = harness.parse(case["text"])
+    sel = None
+    if len(case["text"]) % 3 == 1 and case["truth"]["tracks"]:
+        # the chart was loaded with a selection (every track of the file), held in a list the CALLER goes on using: once the load has
+        # returned the caller empties the list and fills it with something else - the loaded chart is none the wiser
+        sel = harness.pairs([k.split("/") for k in sorted(case["truth"]["tracks"])])
+    out = harness.parse(case["text"], sel)
+    if sel is not None:
+        sel.clear()
+        sel.append((harness.Instrument.KEYS, harness.Difficulty.EASY))
+        rec.cls("callers_selection_list_edited_after_the_load")
     if not out.ok:
         rec.diag(f"chart rejected: {harness.exc_str(out.exc)}")
         return
